@@ -686,6 +686,14 @@ func libTwin(pre []byte, c *CliOp, now int64) (ok bool, out []byte) {
 	defer func() { out = append([]byte(nil), buf.Bytes()...) }()
 	defer f.UnloadContainer()
 	t := time.Unix(now, 0)
+	// the commands take no time argument: the library call with the same arguments is the one with
+	// its default time, which for a deterministic image is "unset" whatever the clock says (for
+	// other images it is the clock, and the twin stamps the second the command stamped)
+	det := f.ID() == uuid.Nil.String() && f.CreatedAt().Equal(time.Time{}) && f.ModifiedAt().Equal(time.Time{})
+	delOpts, setOpts, addOpts := []sif.DeleteOpt{sif.OptDeleteWithTime(t)}, []sif.SetOpt{sif.OptSetWithTime(t)}, []sif.AddOpt{sif.OptAddWithTime(t)}
+	if det {
+		delOpts, setOpts, addOpts = nil, nil, nil
+	}
 	atoi := func(k string) (int64, bool) {
 		v, ok := c.Flags[k]
 		if !ok {
@@ -701,9 +709,9 @@ func libTwin(pre []byte, c *CliOp, now int64) (ok bool, out []byte) {
 			return false, nil
 		}
 		if c.Cmd == "del" {
-			return f.DeleteObject(uint32(id), sif.OptDeleteWithTime(t)) == nil, nil
+			return f.DeleteObject(uint32(id), delOpts...) == nil, nil
 		}
-		return f.SetPrimPart(uint32(id), sif.OptSetWithTime(t)) == nil, nil
+		return f.SetPrimPart(uint32(id), setOpts...) == nil, nil
 	case "add":
 		if c.BadFlg || c.NoObj {
 			return false, nil
@@ -763,7 +771,7 @@ func libTwin(pre []byte, c *CliOp, now int64) (ok bool, out []byte) {
 		if err != nil {
 			return false, nil
 		}
-		return f.AddObject(di, sif.OptAddWithTime(t)) == nil, nil
+		return f.AddObject(di, addOpts...) == nil, nil
 	}
 	return false, nil
 }
